@@ -178,7 +178,7 @@ PROPS["C06"] = Prop(
          "queried on random dates next to the explicit union of the same tables (model-free cross-check); malformed "
          "names; equality between calendars built equal / differing on one day / differing in settlement only",
     classify=_cls_c06, exhaustive=lambda tier: False, trusted=_dates_trusted + [
-        "Rust's Unicode to_lowercase is modelled by lowerStr, exact on U+0000-U+00FF and U+0400-U+045F (swept by the C20 stream)",
+        "Rust's Unicode to_lowercase is modelled by lowerStr, exact on U+0000-U+00FF, U+0400-U+045F and U+212A, U+212B, U+2126, U+1E9E, U+023A, U+023E (swept by the C20 stream)",
         "the built-in tables reach the model through `defname` lines dumped from the running code"],
     assumptions=_dates_assume, oracle=C06Oracle(), allow_badop=True)
 
@@ -287,8 +287,10 @@ def _cls_c18(t, impl):
         return "%s:%s=%s" % (op, t[1], impl), True
     if op == "setord":
         return "setord:%s:%s" % (t[2], _kind_of(impl)), True
-    if op in ("conv", "powc", "un"):
+    if op in ("conv", "powc", "npowc"):
         return "%s:%s" % (op, _kind_of(impl)), True
+    if op == "un":
+        return "un:%s:%s" % (t[1], _kind_of(impl)), True
     return None, False
 
 
@@ -302,7 +304,7 @@ def _cls_c19(t, impl):
         return "sum:%s:len=%d" % (t[1], len(t) - 2), len(t) > 3
     if op == "neut":
         return "neut:%s:%s" % (t[1], _kind_of(impl)), True
-    if op in ("iszero", "isone"):
+    if op in ("iszero", "isone", "sign"):
         return "%s=%s" % (op, impl), True
     return None, False
 
@@ -1129,6 +1131,6 @@ PROPS["C20"] = Prop(
              "chrono's date/weekday text parsing is modelled only for the spellings the library itself writes"],
     assumptions=["calendars have at least one working weekday (an all-seven-day mask makes every adjustment loop forever)",
                  "JSON numbers are exactly representable doubles (knot order is compared exactly)",
-                 "Rust's Unicode lower-casing is modelled exactly on U+0000-U+00FF and U+0400-U+045F (every code point swept on "
+                 "Rust's Unicode lower-casing is modelled exactly on U+0000-U+00FF, U+0400-U+045F and U+212A, U+212B, U+2126, U+1E9E, U+023A, U+023E (every code point swept on "
                  "every run); generated strings have no cased letters outside those ranges",
                  "object keys of a curve's node map carry no JSON escapes (serde_json reads an i64 key from the raw text)"])
